@@ -6,6 +6,7 @@
 package c10rt
 
 import (
+	"bytes"
 	"encoding/json"
 	"fmt"
 	"github.com/rs/zerolog"
@@ -511,4 +512,119 @@ func TestStdLogProducers(t *testing.T) {
 		}
 	}
 	rec.Exhaustive("{waiter, poller} x {log.SetOutput(diode), log.New(diode), log.SetOutput(zerolog.New(diode))}: 40 lines through a ring of 4 with the destination held up")
+}
+
+func bigMessage(n int, fill byte, tag string) []byte {
+	b := bytes.Repeat([]byte{fill}, n)
+	copy(b, tag)
+	b[n-1] = '\n'
+	return b
+}
+
+// consumerIdle waits until the diode's consumer goroutine is parked: in waiter mode inside Cond.Wait, in
+// polling mode asleep in five dumps in a row while the number of deliveries stands still. The state comes
+// from goroutine dumps, not from a guess at how long delivery takes.
+func consumerIdle(poller bool, delivered func() int) bool {
+	deadline := time.Now().Add(20 * time.Second)
+	for time.Now().Before(deadline) {
+		if !poller {
+			if st := watch.States("diode.Writer.poll"); len(st) == 1 && st[0] == "sync.Cond.Wait" {
+				return true
+			}
+			time.Sleep(time.Millisecond)
+			continue
+		}
+		d0, idle := delivered(), true
+		for i := 0; i < 5 && idle; i++ {
+			st := watch.States("diode.Writer.poll")
+			idle = len(st) == 1 && st[0] == "sleep" && delivered() == d0
+			time.Sleep(time.Millisecond)
+		}
+		if idle {
+			return true
+		}
+	}
+	return false
+}
+
+// TestBigMessages: messages around the sizes at which a writer may treat them specially (the 64 KiB pool
+// limit, a quarter and a whole MiB, several MiB) through rings of 1, 4 and 1000 slots. The first message is
+// written while the consumer is parked and must be delivered or reported once the consumer is parked again,
+// with no further Write or Close (C12); after a second message and Close, both are delivered or reported
+// (C11); whatever is delivered is byte for byte one of the two arguments (C10).
+func TestBigMessages(t *testing.T) {
+	var n int64
+	prop := os.Getenv("VERIF_PROP") // the three verdicts belong to C12, C11 and C10 in this order
+	for _, poller := range []bool{false, true} {
+		for _, size := range []int{1, 4, 1000} {
+			for _, ln := range []int{65536, 70000, 262144, 262145, 268435, 268436, 1 << 20, 1<<20 + 1, 3 << 20} {
+				dst := &sink{}
+				var amu sync.Mutex
+				reported := 0
+				poll := time.Duration(0)
+				if poller {
+					poll = 200 * time.Microsecond
+				}
+				dw := diode.NewWriter(dst, size, poll, func(m int) { amu.Lock(); reported += m; amu.Unlock() })
+				delivered := func() int { dst.mu.Lock(); defer dst.mu.Unlock(); return len(dst.got) }
+				key := fmt.Sprintf("big messages poller=%v size=%d len=%d", poller, size, ln)
+				rec.Case([]byte(key), true, "big-messages")
+				n++
+				if !consumerIdle(poller, delivered) {
+					t.Fatalf("HARNESS-ERROR: [%s] the consumer of an empty ring did not park within 20 s", key)
+				}
+				m0, m1 := bigMessage(ln, 'A', "first|"), bigMessage(ln, 'B', "second|")
+				bad := ""
+				if nw, err := dw.Write(m0); err != nil || nw != ln {
+					bad = fmt.Sprintf("Write returned (%d, %v) for a %d-byte message", nw, err, ln)
+				}
+				if bad == "" {
+					if !consumerIdle(poller, delivered) {
+						t.Fatalf("HARNESS-ERROR: [%s] the consumer did not park within 20 s after one Write", key)
+					}
+					amu.Lock()
+					rep := reported
+					amu.Unlock()
+					// (this verdict is C12's alone: under C10 and C11 the run goes on to Close)
+					if d := delivered(); d+rep < 1 && (prop == "C12" || prop == "") {
+						bad = fmt.Sprintf("one %d-byte message written, the consumer is parked again: delivered %d, reported dropped %d (nothing more is written, Close is not called)", ln, d, rep)
+					}
+				}
+				if bad == "" {
+					if nw, err := dw.Write(m1); err != nil || nw != ln {
+						bad = fmt.Sprintf("second Write returned (%d, %v) for a %d-byte message", nw, err, ln)
+					}
+				}
+				closed := make(chan struct{})
+				go func() { dw.Close(); close(closed) }()
+				select {
+				case <-closed:
+				case <-time.After(20 * time.Second):
+					t.Fatalf("HARNESS-ERROR: [%s] Close did not return within 20 s", key)
+				}
+				if bad == "" {
+					dst.mu.Lock()
+					for _, g := range dst.got {
+						if g != string(m0) && g != string(m1) && (prop == "C10" || prop == "") {
+							bad = fmt.Sprintf("destination received %d bytes starting %.24q ending %.12q, which is neither of the two %d-byte arguments", len(g), g, g[len(g)-12:], ln)
+						}
+					}
+					d := len(dst.got)
+					dst.mu.Unlock()
+					amu.Lock()
+					rep := reported
+					amu.Unlock()
+					if bad == "" && d+rep < 2 && prop != "C10" {
+						bad = fmt.Sprintf("two %d-byte messages written, Close returned: delivered %d, reported dropped %d", ln, d, rep)
+					}
+				}
+				if bad != "" {
+					ev.SaveReplay("C10-realrt-big", map[string]interface{}{"poller": poller, "ring_size": size, "message_length": ln})
+					fmt.Printf("VERIF-FAIL: [%s] %s\n", key, bad)
+					t.Fatalf("[%s] %s", key, bad)
+				}
+			}
+		}
+	}
+	rec.Exhaustive("{waiter, poller} x ring size {1, 4, 1000} x message length {64 KiB, 70000, 256 KiB, 256 KiB+1, 268435, 268436, 1 MiB, 1 MiB+1, 3 MiB}: one message with the consumer parked before and after, a second one, Close")
 }
